@@ -320,6 +320,14 @@ pub fn generate(seed: u64, index: u64, cart_type: u8, rom_code: u8) -> Program {
     a.b(&[0x05]); // DEC B
     a.b(&[0x20, 0xfa]); // JR NZ,-6
   }
+  // two small routines in RAM whose immediate operand is rewritten between calls
+  // (LD A,n; ADD A,C; LD C,A; RET at 0xFFA0 and at 0xC1C0): what runs is what RAM holds now
+  for dst in [0xffa0u16, 0xc1c0].iter() {
+    for (i, b) in [0x3eu8, 0x11, 0x81, 0x4f, 0xc9].iter().enumerate() {
+      a.ld_a(*b);
+      a.ld_a_to(*dst + i as u16);
+    }
+  }
   // devices: timer period and enable, STAT enables, LYC, LCDC, IE
   let tac = 0x04 | (rng.below(4) as u8);
   a.ld_a(rng.u8());
@@ -500,6 +508,19 @@ pub fn generate(seed: u64, index: u64, cart_type: u8, rom_code: u8) -> Program {
         a.call(0xc100);
         f.wram_calls += 1;
         desc.push_str("wram-call ");
+        if rng.chance(1, 2) {
+          // rewrite the operand of a RAM-resident routine that has run before, then run it again
+          let dst = if rng.chance(1, 2) { 0xffa0u16 } else { 0xc1c0 };
+          // (all five bytes: other snippets store through HL anywhere in RAM)
+          let n = rng.u8();
+          for (i, b) in [0x3eu8, n, 0x81, 0x4f, 0xc9].iter().enumerate() {
+            a.ld_a(*b);
+            a.ld_a_to(dst + i as u16);
+          }
+          a.call(dst);
+          f.wram_calls += 1;
+          desc.push_str("ram-code-rewritten ");
+        }
       }
       7 => {
         if banked {
